@@ -75,6 +75,13 @@ let ascii_code (a : ascii) : int =
     let v b k = if b then 1 lsl k else 0 in
     v b0 0 + v b1 1 + v b2 2 + v b3 3 + v b4 4 + v b5 5 + v b6 6 + v b7 7
 
+let ascii_of_char (c : Stdlib.Char.t) : ascii =
+  let v = Stdlib.Char.code c in
+  let b k = (v lsr k) land 1 = 1 in
+  Ascii (b 0, b 1, b 2, b 3, b 4, b 5, b 6, b 7)
+
+let rec nat_of_int i = if i <= 0 then O else S (nat_of_int (i - 1))
+
 let string_of_coq_string (s : Model.string) : Stdlib.String.t =
   let b = Buffer.create 16 in
   let rec go (s : Model.string) = match s with
